@@ -48,6 +48,11 @@ func extras(prop string) (map[string]any, []string) {
 			"curve constants (p, d, b, group orders) are the public parameters of the curves",
 			"for vss Deal.Unmarshal a strict prefix may be a well-formed protobuf message: only totality is asserted there",
 		}
+	case "C19":
+		return nil, []string{
+			"the single-shot replay uses the implementation under test on a fresh instance (it decides chunk independence, clone and reset behaviour); the golang.org/x/crypto primitives are the independent reference before any reseed",
+			"trusted: crypto/sha256, golang.org/x/crypto/{blake2b,blake2s,sha3}, math/big",
+		}
 	case "C10":
 		return nil, []string{
 			"sampling within n<=6, t in 2..n, <=3000 events per run; both VSS variants on Ed25519",
